@@ -772,6 +772,9 @@ impl Node {
         // merge the two registers
         let mut merged_register = local_register.clone();
         merged_register.verified_merge(register)?;
+        // the union of two valid replicas can be more than `verify` accepts (the entry limit): what
+        // no neighbour would accept through replication is not stored here either
+        merged_register.verify()?;
         if merged_register == local_register {
             debug!("Register with addr {reg_addr:?} is the same as the local version");
             Ok(None)
